@@ -335,7 +335,7 @@ def stream_minishard(R, n):
         # close() fills gaps one rank at a time: only when every pending id is a nearby class member
         do_close = in_class and rng.random() < 0.8
         spec = sb.ShardSpec(m, s, preshift_bits=p)
-        with L.quiet(R.tmp), np.errstate(all="ignore"):
+        with L.watchdog(), L.quiet(R.tmp), np.errstate(all="ignore"):
             ms = sfa.MiniShard(spec, strategy="in memory")
             outs = []
             for c, pl in ops:
@@ -448,6 +448,9 @@ def run(R):
                   (stream_voxels, 60 if quick else 600)):
         try:
             fn(R, n)
+        except L.ImplHang:
+            R.violation(f"{fn.__name__}: the implementation did not terminate within the watchdog delay",
+                        {"stream": fn.__name__}, {})
         except Exception:  # noqa: BLE001 - keep the violations found so far reportable
             import traceback
             R.disagree(f"{fn.__name__}: the implementation left the harness in an unexpected state",
